@@ -74,6 +74,11 @@ def nf_str(n, depth=0):
         return f"{r(n[2])} is {n[1]}"
     if k == "unknown":
         return f"?{n[1]}"
+    if k == "closure":
+        node = _CLOSURES.get(n[1])
+        return "closure@" + (str(H.sp(node[0])).rsplit("/", 1)[-1] if node else "?")
+    if k == "apply":
+        return f"{r(n[1])}({', '.join(r(a) for a in n[2])})"
     return str(n)
 
 
@@ -93,6 +98,13 @@ def nf_roots(n, out=None):
             nf_roots(a, out)
     elif k in ("elem",):
         nf_roots(n[1], out)
+    elif k == "apply":
+        nf_roots(n[1], out)
+        for a in n[2]:
+            nf_roots(a, out)
+    elif k == "closure":
+        for _k, v in (n[2] if len(n) > 2 else ()):
+            nf_roots(v, out)
     elif k == "payload":
         nf_roots(n[2], out)
     elif k == "format":
@@ -129,12 +141,23 @@ def nf_roots(n, out=None):
     return out
 
 
+_CLOSURES = {}     # id of a closure's syntax node -> (node, environment at its definition); the nodes live as long as the facts do
+
+
 def nf_subst(n, mapping):
     """Substitute ("param", name) leaves."""
     if not isinstance(n, tuple):
         return n
     if n[0] == "param":
         return mapping.get(n[1], n)
+    if n[0] == "closure":
+        # a closure value leaving the function that made it (returned, or handed on inside a result): what it captured from that
+        # function's parameters travels with it and is applied when the closure is
+        if len(n) > 2:
+            return ("closure", n[1], tuple((k, nf_subst(v, mapping)) for k, v in n[2]))
+        return ("closure", n[1], tuple(sorted(mapping.items(), key=lambda kv: kv[0])))
+    if n[0] == "apply":
+        return ("apply", nf_subst(n[1], mapping), tuple(nf_subst(a, mapping) for a in n[2]))
     if n[0] == "format":
         return ("format", tuple((p if p[0] == "lit" else ("hole", nf_subst(p[1], mapping)) + tuple(p[2:])) for p in n[1]))
     if n[0] == "match":
@@ -540,7 +563,7 @@ class NF:
     def __init__(self, facts, consts=None):
         self.F = facts
         self.consts = consts or {}
-        self._clos = {}   # id -> (closure node, environment at its definition): closures bound to locals are applied at their calls
+        self._clos = _CLOSURES   # id -> (closure node, environment at its definition): closures bound to locals are applied at their calls
 
     def nf(self, e, env):
         if e is None:
@@ -654,8 +677,9 @@ class NF:
             if f0.get("k") == "Path" and f0.get("res") == "local":
                 fv = env.get(f0["id"])
                 if isinstance(fv, tuple) and fv[0] == "closure" and fv[1] in self._clos:
-                    clo, cenv = self._clos[fv[1]]
-                    return self.closure_apply(clo, list(args), cenv)
+                    return apply_closure_value(self, fv, list(args))
+                if isinstance(fv, tuple) and fv[0] in ("param", "call", "apply", "field"):
+                    return ("apply", fv, args)      # `read(child, &name)` with `read` a parameter of closure type
             if any(decl.endswith(s) for s in IDENTITY_FNS) and len(args) == 1:
                 return args[0]
             if not args and decl.endswith(("string::String::new", "String::new")):
@@ -1046,11 +1070,13 @@ class NF:
             p = self.nf(clo, env)
             if isinstance(p, tuple) and p[0] == "closure" and p[1] in self._clos:
                 # a closure bound to a local and handed over by name (`let f = |n| ..; x.is_some_and(f)`)
-                c2, cenv = self._clos[p[1]]
-                return self.closure_apply(c2, arg_nfs, cenv)
+                return apply_closure_value(self, p, arg_nfs)
             if p[0] == "const" and any(p[1].endswith(s) for s in IDENTITY_FNS) and len(arg_nfs) == 1:
                 return arg_nfs[0]
-            return ("call", p[1] if p[0] == "const" else "?callback", tuple(arg_nfs))
+            if p[0] == "const":
+                return ("call", p[1], tuple(arg_nfs))
+            # a callable that is a parameter of this function, or what a helper returned: applied once the value is known
+            return ("apply", p, tuple(arg_nfs))
         body = clo["body"]
         env2 = env.child()
         for pat, a in zip(body["params"], arg_nfs):
@@ -1080,7 +1106,8 @@ class NF:
                 body = self.closure_apply(clo, [("elem", recv)], env) if clo is not None else ("unknown", "no-closure")
                 return ("call", "iter::" + name, (recv, body))
             if name in ("map", "and_then"):
-                return ("map", recv, self.closure_apply(args[0], [("payload", "Some", recv)], env))
+                carrier = "Ok" if "result::Result" in (e.get("path") or "") else "Some"
+                return ("map", recv, self.closure_apply(args[0], [("payload", carrier, recv)], env))
             if name in ("is_some_and",):
                 return ("call", "is_some_and", (recv, self.closure_apply(args[0], [("payload", "Some", recv)], env)))
             if name in ("filter",):
@@ -1104,6 +1131,28 @@ class NF:
 
 
 # ---- output grammar ---------------------------------------------------------------------------
+
+def _concrete_type_of(e):
+    """the type of an expression before it was coerced to a trait object (references and boxes peeled), None if it is `dyn` itself"""
+    x = H.strip(e)
+    ty = x.get("ty") or ""
+    t = ty
+    for w in ("&mut ", "&", "std::boxed::Box<", "std::rc::Rc<", "std::sync::Arc<"):
+        while t.startswith(w):
+            t = t[len(w):]
+            if w.endswith("<") and t.endswith(">"):
+                t = t[:-1]
+    t = t.strip()
+    if not t or t.startswith("dyn ") or t == "!":
+        return None
+    return t
+
+
+def _sink_type(ty):
+    """the type of a parameter through which a writer function receives the output sink"""
+    t = ty.replace("&mut ", "").replace("&", "").strip()
+    return t == "W" or "std::fmt::Formatter" in t or "dyn std::io::Write" in t or "dyn std::fmt::Write" in t or (t.isidentifier() and t[:1].isupper() and len(t) <= 3)
+
 
 class Emit:
     def __init__(self, fn, node, fa, parts, ctx, propagated, order, sink):
@@ -1449,6 +1498,7 @@ class Extractor:
                     p = H.callee_path(x)
                     if p:
                         cs.add(p)
+                        cs.update(self.trait_impls(p))     # a call through a trait of the crate (generic or `dyn`): any of its impls
             calls[b["path"]] = cs
         writers = set(direct)
         changed = True
@@ -1458,8 +1508,7 @@ class Extractor:
                 if f not in writers and cs & writers:
                     # only functions that take a sink parameter are writers
                     b = self.lib.body(f)
-                    if any("W" == (p.get("ty") or "").replace("&mut ", "") or "std::fmt::Formatter" in (p.get("ty") or "")
-                           for p in b["hir"]["params"]):
+                    if any(_sink_type(p.get("ty") or "") for p in b["hir"]["params"]):
                         writers.add(f)
                         changed = True
         return writers
@@ -1500,6 +1549,20 @@ class Extractor:
             self.CE = CallExpander(self.F)
         return self.CE
 
+    def trait_impls(self, decl):
+        """paths of the impls of a method of a trait of this crate, when `decl` is the trait's own (unresolved) method path"""
+        if not hasattr(self, "_trait_impls"):
+            self._trait_impls = {}
+            local_traits = {t["path"] for t in self.lib.items.get("traits", [])}
+            for b in self.lib.bodies:
+                pth = b["path"]
+                if pth.startswith("<") and " as " in pth and ">::" in pth and "{closure" not in pth:
+                    tr = pth.split(" as ", 1)[1].rsplit(">::", 1)[0]
+                    tr_base = re.sub(r"<.*$", "", tr)
+                    if tr_base in local_traits:
+                        self._trait_impls.setdefault(tr_base + "::" + pth.rsplit(">::", 1)[1], []).append(pth)
+        return self._trait_impls.get(decl, []) if self.lib.body(decl) is None or decl not in self.lib.by_path else []
+
     def _is_sink(self, recv, env):
         """the receiver is the generic writer handed to the function (a parameter, possibly reborrowed)"""
         r = H.strip(recv)
@@ -1520,6 +1583,32 @@ class Extractor:
             if x.get("k") in ("MethodCall", "Call") and (H.callee_path(x) in self.writer_fns):
                 return True
         return False
+
+    def _record_dyn_choices(self, s, env):
+        """`let item: &dyn Trait = match v { A(x) => x, B(y) => y };`: the concrete values the trait object can be, per arm"""
+        init = H.strip(s["init"]) if s.get("init") else None
+        pat = s["pat"]
+        if init is None or pat.get("k") != "Binding" or "dyn " not in (pat.get("ty") or ""):
+            return
+        if not hasattr(self, "_dyn_choices"):
+            self._dyn_choices = {}
+        if init.get("k") == "Match":
+            scrut = self.NF.nf(init["scrut"], env)
+            out = []
+            for a in init["arms"]:
+                if _diverges(a["body"]):
+                    continue
+                cty = _concrete_type_of(a["body"])
+                if cty is None or a.get("guard"):
+                    return
+                env_a = env.child()
+                bind_pattern(a["pat"], scrut, env_a)
+                out.append(((("alt", ("islet", pat_label(a["pat"]), scrut), True),), self.NF.nf(a["body"], env_a), cty))
+            self._dyn_choices[pat["id"]] = out
+        else:
+            cty = _concrete_type_of(init)
+            if cty:
+                self._dyn_choices[pat["id"]] = [((), self.NF.nf(init, env), cty)]
 
     def _iter_source(self, e, env):
         """normal form of what a loop ranges over; a local helper that returns an iterator (`self.nodes_in(ns)` =
@@ -1585,6 +1674,25 @@ class Extractor:
                 args.append(self.NF.nf(e["recv"], env))
             args += [self.NF.nf(a, env) for a in e["args"]]
             out.append(CallEv(fn, e, H.callee_path(e), args, ctx, how, len(out), how))
+            return
+        if k == "MethodCall" and any(i_ in self.writer_fns for i_ in self.trait_impls(H.callee_path(e) or "")):
+            # a writer called through a trait object / generic of a trait of the crate: one alternative per value the receiver can be
+            impls = [i_ for i_ in self.trait_impls(H.callee_path(e)) if i_ in self.writer_fns]
+            r = H.strip(e["recv"])
+            while r.get("k") == "AddrOf" or (r.get("k") == "Unary" and r.get("op") == "Deref"):
+                r = H.strip(r["e"])
+            choices = getattr(self, "_dyn_choices", {}).get(r.get("id")) if r.get("k") == "Path" and r.get("res") == "local" else None
+            if choices is None:
+                ty0 = _concrete_type_of(e["recv"])
+                choices = [((), self.NF.nf(e["recv"], env), ty0)] if ty0 else None
+            if choices is None:
+                raise Unrecognised(f"writer called through a trait object whose concrete types could not be determined ({H.describe(e)[:80]})", e)
+            rest = [self.NF.nf(a, env) for a in e["args"]]
+            for extra_ctx, recv_nf, cty in choices:
+                target = [i_ for i_ in impls if i_.startswith("<" + cty + " as ") or i_.startswith("<" + re.sub(r"<.*$", "", cty) + "<")]
+                if len(target) != 1:
+                    raise Unrecognised(f"no unique impl of {H.callee_path(e)} for {cty}", e)
+                out.append(CallEv(fn, e, target[0], [recv_nf] + rest, ctx + extra_ctx, how, len(out), how))
             return
         if k == "If":
             c = H.strip(e["cond"])
@@ -1685,6 +1793,7 @@ class Extractor:
                     self._visit(fn, init, env2, cur_ctx, out, how_let)
                 rest = stmts[si + 1:] + ([{"k": "Expr", "e": b["tail"]}] if b.get("tail") else [])
                 dmc = diverging_match_conditions(self.NF, init, env2) if init is not None else []
+                self._record_dyn_choices(s, env2)
                 self.NF.bind_let(s, env2, rest)
                 cur_ctx = cur_ctx + tuple(("alt", c, br) for c, br in dmc)
                 if s.get("els") is not None:
@@ -2014,6 +2123,9 @@ def nf_simplify(n):
             return ("ifelse", base[1], nf_simplify(("field", base[2], n[2])), nf_simplify(("field", base[3], n[2])))
     if n and n[0] == "payload" and n[1] in ("Some", "Ok") and isinstance(n[2], tuple) and n[2][0] == "call" and n[2][1] == n[1] and len(n[2][2]) == 1:
         return n[2][2][0]      # the payload of a literal `Some(x)` is x
+    if n and n[0] == "payload" and isinstance(n[2], tuple) and n[2][0] == "call" and isinstance(n[2][1], str) and n[2][1].startswith("ctor:") \
+            and n[2][1].rsplit("::", 1)[-1] == str(n[1]).rsplit("::", 1)[-1] and len(n[2][2]) == 1:
+        return n[2][2][0]      # `let Wrapper(x) = Wrapper(v)`: x is v
     if n and n[0] == "payload" and n[1] == "Some" and isinstance(n[2], tuple) and n[2][0] == "ifelse":
         ov = _opt_view(n[2])
         if ov is not None and ov[0] is not True:
@@ -2031,6 +2143,59 @@ def _subst_ctx(ctx, mapping):
     return tuple(out)
 
 
+def _default_value(F, ty, N, depth=0):
+    """normal form of `<ty as Default>::default()`"""
+    t = (ty or "").replace(" ", "")
+    if t == "bool":
+        return ("lit", False)
+    if t in NUMERIC_TYPES:
+        return ("lit", 0)
+    if t.startswith(("std::option::Option<", "core::option::Option<")):
+        return ("const", "std::option::Option::None")
+    if t in ("std::string::String", "alloc::string::String", "&str"):
+        return ("lit", "")
+    if t.startswith(("std::vec::Vec<", "alloc::vec::Vec<")):
+        return ("list", ())
+    b = F.lib.body("<" + (ty or "") + " as std::default::Default>::default")
+    if b is not None and b.get("hir") is not None and depth < 3:
+        v = H.strip(H.norm_body(b)["value"])
+        while v.get("k") == "Block" and not v["b"]["stmts"] and v["b"].get("tail"):
+            v = H.strip(v["b"]["tail"])
+        if v.get("k") == "Path":
+            return N.nf(v, Env())       # the `#[default]` variant of an enum
+    return ("call", "<" + (ty or "?") + " as std::default::Default>::default", ())
+
+
+def default_fields(F, base_expr, N):
+    """{member: value} when the expression is `<S as Default>::default()` of a struct of the crate whose Default builds every member
+    with that member's own default (the derive); None otherwise"""
+    e = H.strip(base_expr)
+    if e.get("k") != "Call" or e.get("args"):
+        return None
+    p = H.callee_path(e) or ""
+    if not (p.startswith("<") and p.endswith(" as std::default::Default>::default")):
+        return None
+    b = F.lib.body(p)
+    if b is None or b.get("hir") is None:
+        return None
+    v = H.strip(H.norm_body(b)["value"])
+    while v.get("k") == "Block" and not v["b"]["stmts"] and v["b"].get("tail"):
+        v = H.strip(v["b"]["tail"])
+    if v.get("k") != "Struct" or v.get("base"):
+        return None
+    out = {}
+    for f in v["fields"]:
+        fe = H.strip(f["e"])
+        if fe.get("k") == "Call" and not fe.get("args") and (H.decl_path(fe) or "").endswith("default::Default::default"):
+            out[f["name"]] = _default_value(F, fe.get("ty"), N)
+        else:
+            try:
+                out[f["name"]] = N.nf(fe, Env())
+            except Unrecognised:
+                return None
+    return out
+
+
 def field_summaries(F, struct_suffix, through_helpers=True):
     """All construction sites `S { f: e, .. }` of struct S (path ends with struct_suffix) in non-test lib code:
     [(fn, site, ctx, {field: nf}, base_nf_or_None)].
@@ -2038,6 +2203,7 @@ def field_summaries(F, struct_suffix, through_helpers=True):
     (arguments substituted for the helper's parameters, the call's context prefixed), transitively, and no longer for the helper
     itself: whether a constructor sits in the public conversion function or in a function extracted from it does not matter."""
     W = EnvWalker(F)
+    as_base, default_uses = set(), {}
     own = {}      # fn -> [(site, ctx, fields, base)]
     calls = {}    # caller -> [(callee, arg_nfs, ctx)]
     params = {}
@@ -2047,7 +2213,16 @@ def field_summaries(F, struct_suffix, through_helpers=True):
             if e.get("k") == "Struct" and (e["path"].get("path") or "").endswith(struct_suffix):
                 fields = {f["name"]: W.NF.nf(f["e"], env) for f in e["fields"]}
                 base = e.get("base")
+                if isinstance(base, dict):
+                    # `S { a, b, ..S::default() }`: the members not named have the values the Default impl gives them
+                    df = default_fields(F, base, W.NF)
+                    for k_, v_ in (df or {}).items():
+                        fields.setdefault(k_, v_)
+                    if df is not None:
+                        as_base.add(id(H.strip(base)))
                 own.setdefault(fn, []).append((H.sp(e), ctx, fields, W.NF.nf(base, env) if isinstance(base, dict) else base))
+            if e.get("k") == "Call" and (H.callee_path(e) or "").endswith(" as std::default::Default>::default"):
+                default_uses.setdefault(H.callee_path(e), []).append(id(e))
             if through_helpers and e.get("k") in ("Call", "MethodCall"):
                 cp = H.callee_path(e)
                 if cp in local and cp != fn:
@@ -2061,6 +2236,11 @@ def field_summaries(F, struct_suffix, through_helpers=True):
             own.pop(fn, None)
             calls.pop(fn, None)
             continue
+    # a Default impl that is only ever used to fill in the rest of a struct literal (`..S::default()`) builds no value of its own: its
+    # members are accounted for at those literals
+    for dp, uses in default_uses.items():
+        if dp in own and uses and all(u in as_base for u in uses):
+            del own[dp]
     if not through_helpers:
         return [(fn, site, ctx, fields, base) for fn, xs in own.items() for (site, ctx, fields, base) in xs]
     callers = {}
@@ -2158,14 +2338,24 @@ def spine(nf):
     return out, cur
 
 
+def apply_closure_value(N, clo_nf, arg_nfs):
+    """the body of a closure value ("closure", id[, what it captured of its maker's parameters]) with its parameters bound"""
+    node, cenv = _CLOSURES[clo_nf[1]]
+    body = N.closure_apply(node, list(arg_nfs), cenv)
+    if len(clo_nf) > 2 and clo_nf[2]:
+        body = nf_subst(body, dict(clo_nf[2]))
+    return body
+
+
 class CallExpander:
     """Expand calls to small local non-writer functions inside normal forms (e.g. xml_name_to_rust_name, as_field_name,
     create_mod_name_for_namespace) so that sanitiser chains become visible."""
 
-    def __init__(self, F):
+    def __init__(self, F, general_matches=False):
         self.F = F
         self.NF = NF(F)
         self.cache = {}
+        self.general_matches = general_matches    # also take in helpers that dispatch with a general `match` (for evaluation)
 
     def const_text(self, path):
         for c in self.F.lib.items.get("consts", []):
@@ -2230,11 +2420,11 @@ class CallExpander:
                     merged[-1] = ("lit", merged[-1][1] + q[1])
                 else:
                     merged.append(q)
-            if len(merged) == 1 and merged[0][0] == "hole":
+            if len(merged) == 1 and merged[0][0] == "hole" and (len(merged[0]) < 4 or merged[0][3] in ("?", None, "")):
                 return merged[0][1]
             if len(merged) == 1 and merged[0][0] == "lit":
                 return ("lit", merged[0][1])
-            return ("format", tuple(merged))
+            return ("format", tuple(merged))      # (a lone hole of known type stays a template: the type travels with the hole)
 
         def as_parts(nf):
             if nf[0] == "format":
@@ -2255,6 +2445,13 @@ class CallExpander:
                 return as_parts(N.nf(x["args"][0], en))
             if k == "Call" and (H.callee_path(x) or "").rsplit("::", 1)[-1] == "Ok" and not any(is_f(y) for y in H.exprs(x)):
                 return []
+            # the text of another value's Display, forwarded: `self.inner.fmt(f)` / `Display::fmt(&self.inner, f)`
+            if k == "MethodCall" and x["name"] == "fmt" and len(x["args"]) == 1 and is_f(x["args"][0]) and (H.decl_path(x) or "").endswith("fmt::Display::fmt"):
+                r_ = H.strip(x["recv"])
+                return [("hole", N.nf(x["recv"], en), "display", (r_.get("ty") or "?"))]
+            if k == "Call" and len(x["args"]) == 2 and is_f(x["args"][1]) and (H.decl_path(x) or "").endswith("fmt::Display::fmt"):
+                r_ = H.strip(x["args"][0])
+                return [("hole", N.nf(x["args"][0], en), "display", (r_.get("ty") or "?"))]
             if k == "Block":
                 return block(x, en)
             if k == "Match":
@@ -2380,7 +2577,7 @@ class CallExpander:
                 return None
             if x.get("k") == "Ret" and id(x) not in folded:
                 return None
-            if x.get("k") == "Match" and option_match([pat_label(a["pat"]) for a in x.get("arms", [])], x.get("arms", [])) is None \
+            if x.get("k") == "Match" and not self.general_matches and option_match([pat_label(a["pat"]) for a in x.get("arms", [])], x.get("arms", [])) is None \
                     and not _bool_patterns(x.get("arms", [])) and not _literal_match(x.get("arms", [])) and not _matches_macro(x.get("arms", [])) \
                     and not _two_way_split(x.get("arms", [])):
                 return None  # only matches that read as if/else (option, tuple of booleans, one variant against the rest); tables and variant dispatch stay opaque calls
@@ -2405,6 +2602,14 @@ class CallExpander:
             if s is not None and len(s[0]) == len(args):
                 return self.expand(nf_subst(s[1], dict(zip(s[0], args))), depth + 1)
             return ("call", n[1], args)
+        if n[0] == "apply":
+            f = self.expand(n[1], depth)
+            args = tuple(self.expand(a, depth) for a in n[2])
+            if isinstance(f, tuple) and f[0] == "closure" and f[1] in _CLOSURES:
+                return self.expand(apply_closure_value(self.NF, f, args), depth + 1)
+            return ("apply", f, args)
+        if n[0] == "closure":
+            return n if len(n) < 3 else ("closure", n[1], tuple((k, self.expand(v, depth)) for k, v in n[2]))
         if n[0] == "format":
             return ("format", tuple((p if p[0] == "lit" else ("hole", self.expand(p[1], depth)) + tuple(p[2:])) for p in n[1]))
         if n[0] == "match":
